@@ -42,6 +42,27 @@ struct VaryingSizeAddresses
     std::size_t* size;
 };
 
+// Padding between the end of the last parameter and the start of the next element. `offset` is relative to an address
+// that is only known to be aligned to `base_alignment`, which is weaker than NextAlignment behind a VaryingSize
+// parameter. Assume the worst case then, like the leading padding does.
+template <std::size_t TrailingAlignment, std::size_t NextAlignment>
+constexpr std::size_t trailing_padding([[maybe_unused]] std::size_t offset,
+                                       [[maybe_unused]] std::size_t base_alignment) noexcept
+{
+    if constexpr (TrailingAlignment < NextAlignment)
+    {
+        if (base_alignment < NextAlignment)
+        {
+            return detail::align(offset, base_alignment) - offset + NextAlignment - base_alignment;
+        }
+        return detail::align(offset, NextAlignment) - offset;
+    }
+    else
+    {
+        return {};
+    }
+}
+
 template <class T>
 struct ParameterTraits : detail::ParameterTraits<cntgs::AlignAs<T, 1>>
 {
@@ -114,8 +135,10 @@ struct ParameterTraits<cntgs::AlignAs<T, Alignment>>
             size = alignment_offset - offset + VALUE_BYTES;
             new_offset = offset + size;
         }
-        const auto padding_offset = detail::align_if<(TRAILING_ALIGNMENT < NextAlignment), NextAlignment>(new_offset);
-        return {new_offset, size, padding_offset - new_offset, (std::max)(alignment, ALIGNMENT)};
+        const auto base_alignment = (std::max)(alignment, ALIGNMENT);
+        return {new_offset, size,
+                detail::trailing_padding<TRAILING_ALIGNMENT, NextAlignment>(new_offset, base_alignment),
+                base_alignment};
     }
 
     static auto data_begin(ConstReferenceType reference) noexcept
@@ -411,8 +434,10 @@ struct ParameterTraits<cntgs::FixedSize<cntgs::AlignAs<T, Alignment>>> : BaseCon
             size = alignment_offset - offset + value_size;
             new_offset = offset + size;
         }
-        const auto padding_offset = detail::align_if<(TRAILING_ALIGNMENT < NextAlignment), NextAlignment>(new_offset);
-        return {new_offset, size, padding_offset - new_offset, (std::max)(alignment, ALIGNMENT)};
+        const auto base_alignment = (std::max)(alignment, ALIGNMENT);
+        return {new_offset, size,
+                detail::trailing_padding<TRAILING_ALIGNMENT, NextAlignment>(new_offset, base_alignment),
+                base_alignment};
     }
 
     static void copy(const cntgs::Span<std::add_const_t<T>>& source,
